@@ -14,8 +14,12 @@
 (* the property (DeniedStaysDark, ClippedOutside, ContentInside, InfoGate) *)
 (* is evaluated on every recorded observation itself (ObsOK).  Every event *)
 (* carries the geometries its callback result refers to (geoms); the       *)
-(* invariant TypeOK checks them to be well formed.  Batch acceptance by    *)
-(* POSTCONDITION.                                                          *)
+(* invariant TypeOK checks them to be well formed.  A geometry is either   *)
+(* a set of lattice cells {xs, ys, cells} or, for requests recorded in an  *)
+(* oblique world (polar stereographic grid, EPSG:4326 areas), a raster     *)
+(* {cls, pt, grid} made for this request (see Auth).  Batch acceptance by  *)
+(* POSTCONDITION; registers 4 / 5 tell which part of the property a bad    *)
+(* observation violates (content outside / content missing inside).        *)
 (***************************************************************************)
 EXTENDS Auth, Json, IOUtils, TLCExt
 
@@ -39,9 +43,12 @@ CbOf(e) == [authorized |-> e.authorized,
                           IN [map |-> row[2], featureinfo |-> row[3], tile |-> row[4], lim |-> row[5]]],
             glob |-> e.glob]
 
-\* the geometries of the event: object id -> {xs, ys, cells: [[i, j], ...]}
-GeoOf(gs) == [id \in DOMAIN gs |-> [xs |-> SeqOf(gs[id].xs), ys |-> SeqOf(gs[id].ys),
-                                    cells |-> {<<gs[id].cells[k][1], gs[id].cells[k][2]>> : k \in 1 .. Len(gs[id].cells)}]]
+\* the geometries of the event: object id -> {xs, ys, cells: [[i, j], ...]}  or  {cls: [[c, ...], ...], pt, grid}
+GeoOf(gs) == [id \in DOMAIN gs |->
+                IF "cls" \in DOMAIN gs[id]
+                  THEN [cls |-> [j \in 1 .. Len(gs[id].cls) |-> SeqOf(gs[id].cls[j])], pt |-> gs[id].pt, grid |-> gs[id].grid]
+                  ELSE [xs |-> SeqOf(gs[id].xs), ys |-> SeqOf(gs[id].ys),
+                        cells |-> {<<gs[id].cells[k][1], gs[id].cells[k][2]>> : k \in 1 .. Len(gs[id].cells)}]]
 
 \* the observation as a response record of Auth (what was seen is what "may" have been produced)
 ObsOut(o) == [status |-> o.status, ups_must |-> SetOf(o.ups), ups_may |-> SetOf(o.ups),
@@ -77,6 +84,11 @@ ObsOK(o) == LET r == ObsOut(o) IN
   /\ o.lossy => ContentInsideOn([r EXCEPT !.px = [j \in DOMAIN r.px |-> [i \in DOMAIN r.px[j] |->
                                    IF r.px[j][i] = 0 THEN Mask({RefTop}) ELSE r.px[j][i]]]])
 
+InsideOK(o) == LET r == ObsOut(o) IN
+  /\ o.lossy \/ ContentInsideOn(r)
+  /\ o.lossy => ContentInsideOn([r EXCEPT !.px = [j \in DOMAIN r.px |-> [i \in DOMAIN r.px[j] |->
+                                   IF r.px[j][i] = 0 THEN Mask({RefTop}) ELSE r.px[j][i]]]])
+
 \* (the batch is deserialized once: LET values are evaluated at most once)
 TraceInit ==
   LET B == Batch IN
@@ -91,18 +103,22 @@ TraceNext ==
   /\ Next
   /\ UNCHANGED <<tid, obs>>
   /\ (pc = "start" /\ ~ObsOK(obs)) => TLCSet(2, TLCGet(2) \cup {tid})
+  /\ (pc = "start" /\ obs.status = 200 /\ ~ClippedOutsideOn(ObsOut(obs))) => TLCSet(4, TLCGet(4) \cup {tid})
+  /\ (pc = "start" /\ obs.status = 200 /\ ~InsideOK(obs)) => TLCSet(5, TLCGet(5) \cup {tid})
   /\ (pc' = "done" /\ Match(obs, out')) => TLCSet(IF combine THEN 3 ELSE 1, TLCGet(IF combine THEN 3 ELSE 1) \cup {tid})
 
 TraceSpec == TraceInit /\ [][TraceNext]_tvars
 
-ASSUME TLCSet(1, {}) /\ TLCSet(2, {}) /\ TLCSet(3, {})
+ASSUME TLCSet(1, {}) /\ TLCSet(2, {}) /\ TLCSet(3, {}) /\ TLCSet(4, {}) /\ TLCSet(5, {})
 
 \* register 1: events accepted by the model of the code as found, 3: by the model with both limits applied,
-\* 2: events whose observation violates the property
+\* 2: events whose observation violates the property (4: content outside an area, 5: content missing well inside)
 TraceAccepted ==
   /\ PrintT(<<"accepted", TLCGet(1)>>)
   /\ PrintT(<<"accepted_combined", TLCGet(3)>>)
   /\ PrintT(<<"obsbad", TLCGet(2)>>)
+  /\ PrintT(<<"obsbad_outside", TLCGet(4)>>)
+  /\ PrintT(<<"obsbad_inside", TLCGet(5)>>)
   /\ TLCGet(1) \cup TLCGet(3) = 1 .. N
   /\ TLCGet(2) = {}
 =============================================================================
